@@ -139,7 +139,7 @@ def handleBind (j : Json) : Json :=
     match j.getObjVal? "raw" with
     | .ok (.arr a) => some (a.toList.map (fun x => (x.getStr?.toOption.getD "").toList))
     | _ => none
-  Json.mkObj [("r", Json.str "ok"), ("gen", boundJson (Params.bindGen p raw)), ("ref", boundJson (Params.bindRef p raw))]
+  Json.mkObj [("r", Json.str "ok"), ("gen", boundJson (Params.bindGenAny p raw)), ("ref", boundJson (Params.bindRefAny p raw))]
 
 partial def toJ (j : Json) : Schema.J :=
   match j with
